@@ -85,6 +85,18 @@ def light_specs(pop, d):
         for i, srcs in enumerate(lists):
             pre = (('assign', 'nm', S(b)),) if i == len(lists) - 1 else ()
             out.append(('in%d/%s' % (i, wt), pre, ('in', srcs, l, w), vs))
+    # list elements that are calls (each with its own argument) and variables: visited in list order, once each
+    idn = ('define', 'idn', ('q',), (('return', V('q')),))
+    pre = (idn, ('assign', 'nm', S(b)), ('assign', 'gn', S(g)))
+    call = lambda x: ('call', 'idn', (x,))
+    for j, srcs in enumerate([
+            (('light', call(S(b))), ('light', call(S(a)))),
+            (('light', call(S(a))), ('light', V('nm')), ('light', call(S(b)))),
+            (('group', call(S(g))), ('light', call(S(b)))),
+            (('light', call(V('nm'))), ('group', V('gn')), ('location', call(S(p)))),
+            (('light', call(call(S(a)))), ('light', S(b)), ('light', call(S(a))))]):
+        out.append(('in-calls%d/plain' % j, pre, ('in', srcs, l, None), (l,)))
+        out.append(('in-calls%d/from10' % j, pre, ('in', srcs, l, ('from', v, N(10), N(30))), (l, v)))
     return out
 
 
